@@ -97,7 +97,7 @@ Definition wfail {A} (e : list ev) (r : res A) : wres :=
 
 Definition is_json_map_entry (d : desc) : bool :=
   (d_type d =? FTStruct) && (d_logical d =? LTMapEntry) && Nat.eqb (length (d_elems d)) 2
-  && match d_elems d with k :: _ => d_type k =? FTString | _ => false end.
+  && match d_elems d with k :: _ => (d_type k =? FTString) && negb (d_explicit k) | _ => false end.
 Definition is_json_map (d : desc) : bool :=
   (d_type d =? FTSlice) && (d_logical d =? LTMap) && Nat.eqb (length (d_elems d)) 1
   && match d_elems d with e :: _ => is_json_map_entry e | _ => false end.
